@@ -211,6 +211,32 @@ def probe_replay(path, no_skip=True):
     rc, out, err, wall = sh([binp, 'replay', path], timeout=600, env=env)
     return rc, out.strip().split('\n')[-1] if out.strip() else err[-300:]
 
+KANI_QUICK = ['echo_constant_bits', 'gte_bits', 'lte_bits', 'multiply_divide_gating', 'add_bits', 'subtract_bits']
+KANI_THOROUGH = KANI_QUICK + ['multiply_bits']
+def kani_run(harnesses, timeout=1800):
+    """complete loop-free bit-level proofs on the real crate (C14); returns dict(harness -> 'SUCCESSFUL'|'FAILED'|'ERROR')"""
+    kdir = os.environ.get('VERIF_KANI_DIR', os.path.join(ROOT, 'kani'))
+    cargo = open(os.path.join(kdir, 'Cargo.toml.in')).read().replace('@REPO@', REPO)
+    cpath = os.path.join(kdir, 'Cargo.toml')
+    if not os.path.exists(cpath) or open(cpath).read() != cargo: open(cpath, 'w').write(cargo)
+    lock = os.path.join(REPO, 'Cargo.lock')
+    if os.path.exists(lock): shutil.copy(lock, os.path.join(kdir, 'Cargo.lock'))
+    env = dict(os.environ, CARGO_NET_OFFLINE='true')
+    cmd = 'cargo kani -j %d --output-format terse %s' % (min(8, NTHREADS), ' '.join('--harness ' + h for h in harnesses))
+    rc, out, err, wall = sh(cmd, timeout=timeout, env=env, cwd=kdir)
+    res = {}
+    cur = None
+    for ln in (out + '\n' + err).split('\n'):
+        m = re.search(r'Checking harness (?:\w+::)*(\w+)', ln)
+        if m: cur = m.group(1)
+        m2 = re.search(r'VERIFICATION:- (\w+)', ln)
+        if m2 and cur: res[cur] = m2.group(1); cur = None
+    # with -j the per-harness lines may be missing: fall back on the summary
+    m = re.search(r'(\d+) successfully verified harnesses, (\d+) failures, (\d+) total', out + err)
+    failed = re.findall(r'Failed Checks: (.*)', out + err)
+    summary = dict(ok=int(m.group(1)), failed=int(m.group(2)), total=int(m.group(3))) if m else None
+    return dict(cmd=cmd, wall_s=round(wall, 1), rc=rc, per_harness=res, summary=summary, failed_checks=failed[:10], tail=(out + err)[-1500:] if not m else '')
+
 def is_rlimit(e):
     return 'rlimit' in e['msg'].lower() or 'resource limit' in e['msg'].lower()
 
@@ -369,6 +395,9 @@ def main():
     if focus and not probe.get('found'):
         p2 = probe_search(pid, seed + 1, budget * 5, focus, skip)
         if p2.get('found'): probe = p2
+    kani = None
+    if pid == 'C14':
+        kani = kani_run(KANI_QUICK if tier == 'quick' else KANI_THOROUGH)
     violation = None
     # a function that has no contract of its own (e.g. a helper extracted by a refactoring) makes its callers unverifiable: failures in
     # such a module are "needs contract work" (undecided) unless the bounded search replays a real failing input
@@ -380,6 +409,11 @@ def main():
         violation = dict(kind='failed-obligation', failed=[f for f, _ in new])
     elif probe.get('found'):
         violation = dict(kind='failing-input-found-by-bounded-search', failed=[])
+    elif kani and kani.get('summary') and kani['summary']['failed'] > 0:
+        violation = dict(kind='kani-bit-level-proof-failed', failed=[dict(module='kani', fn=h, label='bit-exact', line=0, msg='CBMC found a counterexample', text='; '.join(kani['failed_checks'])) for h, r in kani['per_harness'].items() if r != 'SUCCESSFUL'] or
+                         [dict(module='kani', fn='?', label='bit-exact', line=0, msg='CBMC found a counterexample', text='; '.join(kani['failed_checks']))])
+    if kani and not kani.get('summary') and not violation:
+        print('MACHINERY: the Kani harnesses did not run to completion (not a verdict):\n' + kani.get('tail', '')[-800:]); sys.exit(2)
     wall = time.time() - t0
     ev = dict(property_id=pid, tier=tier, seed=seed, level='proof', wall_s=round(wall, 2), violations=1 if violation else 0,
               coverage=dict(
@@ -397,7 +431,7 @@ def main():
                   prerequisite_failures=[dict(module=f['module'], fn=f['fn'], label=f['label'], tags=f['tags']) for f in prereq],
                   undecided_resource_out=[dict(module=f['module'], fn=f['fn']) for f in undecided],
                   known_findings=[k['raw'][:300] for k in known],
-                  bounded=probe,
+                  bounded=probe, kani_loop_free_bit_level_proofs=kani,
                   samples=[dict(obligation='%s::%s [%s]' % (o['module'], o['fn'], o['label']), clause=o['text'][:300]) for o in obl[:6]]
                           + [dict(lemma=k) for k in lemma_fns[:4]]),
               assumptions=ASSUMPTIONS)
